@@ -272,17 +272,19 @@ class Resolver:
                     pass
             return matches
 
-        matches = self.__find(node, name, remainder)
-        if not matches and not Resolver.is_wildcard(name) and not self.relax:
+        found, matches = self.__find(node, name, remainder)
+        if not found and not Resolver.is_wildcard(name) and not self.relax:
             raise ChildResolverError(node, name, self.pathattr)
         return matches
 
     def __find(self, node, pat, remainder):
+        found = False
         matches = []
         for child in node.children:
             name = _getattr(child, self.pathattr)
             try:
                 if self.__match(name, pat):
+                    found = True
                     if remainder:
                         matches += self.__glob(child, remainder)
                     else:
@@ -290,7 +292,7 @@ class Resolver:
             except ResolverError as exc:
                 if not Resolver.is_wildcard(pat):
                     raise exc
-        return matches
+        return found, matches
 
     @staticmethod
     def is_wildcard(path):
